@@ -35,6 +35,8 @@ DevMemo == Dev = "StaleMemo"
 DevError == Dev = "SharedError"
 DevSort == Dev = "SortInPlace"
 DevConvert == Dev = "ConvertInPlace"
+DevHide == Dev = "HideRestore"
+DevEarly == Dev = "EarlyExitWalk"
 DevNoMutex == Dev = "NoStepMutex"
 DevEnum == Dev = "EnumEarlyReturn"
 
@@ -51,6 +53,8 @@ DevKinds ==
       [] Dev = "SharedError" -> {"disabled"}
       [] Dev = "SortInPlace" -> {"objdep"}
       [] Dev = "ConvertInPlace" -> {"anylist"}
+      [] Dev = "HideRestore" -> {"oneof"}
+      [] Dev = "EarlyExitWalk" -> {"objreq"}
       [] Dev = "NoStepMutex" -> {"steps"}
       [] Dev = "EnumEarlyReturn" -> {"enum"}
       [] OTHER -> {}
@@ -77,12 +81,12 @@ ExportHist ==
 CallsOf(g) == SelectSeq(hist, LAMBDA e : e.g = g)
 ExportSched ==
     (AllIdle /\ \A g \in G : ncalls[g] = MaxCalls) =>
-        Emit([kind |-> inst.kind, origin |-> inst.origin, what |-> "sched",
+        Emit([kind |-> inst.kind, origin |-> inst.origin, shared |-> inst.shared, what |-> "sched",
               sched |-> [g \in G |-> PureList(CallsOf(g))]])
 
 \* ------------------------------------------------------------------ witnesses of a deviation
 CallsInFlight == [g \in G |-> [op |-> cur[g].op, arg |-> cur[g].arg, pc |-> pc[g], acc |-> Acc(g)]]
-Wit(what) == Emit([kind |-> inst.kind, origin |-> inst.origin, what |-> what, dev |-> Dev,
+Wit(what) == Emit([kind |-> inst.kind, origin |-> inst.origin, shared |-> inst.shared, what |-> what, dev |-> Dev,
                    calls |-> PureList(hist), inflight |-> CallsInFlight,
                    hist |-> [i \in DOMAIN hist |-> [g |-> hist[i].g, res |-> hist[i].res]]])
 WitnessRace == Race => Wit("race")
@@ -90,6 +94,7 @@ WitnessHistory == ~HistoryFree => Wit("history")
 WitnessDeterministic == ~Deterministic => Wit("nondeterministic")
 WitnessCache == ~CacheIntegrity => Wit("cache")
 WitnessArgument == ~ArgumentPreserved => Wit("argument")
+WitnessInput == ~InputStable => Wit("input")
 WitnessDescribe == ~DescribeUnchanged => Wit("describe")
 WitnessInitOnce == ~InitOnce => Wit("initonce")
 =============================================================================
